@@ -73,6 +73,13 @@ def _recover(job):
     try:
         np.random.seed(seed)
         m = fac()
+        # two thirds of the instances have a past: a fit to a constant column of zeros, or to a sample from elsewhere, with one query
+        if seed % 3:
+            try:
+                m.fit(np.zeros(12) if seed % 3 == 1 else X[: max(5, n // 4)] * 0.25 - 7.0)
+                m.cumulative_distribution(np.array([0.0, 1.0]))
+            except Exception:
+                pass
         m.fit(X.copy())
         xs = np.sort(X)
         grid = np.concatenate([xs, law.ppf(np.linspace(0.001, 0.999, 199))])
@@ -94,12 +101,20 @@ def _support(job):
     rs = np.random.RandomState(seed)
     probs = []
     X = {'beta': rs.beta(2, 3, 300) * 5 + 1, 'uniform': rs.uniform(-3, 9, 300), 'skew': rs.gamma(2, 2, 300), 'normal': rs.normal(4, 2, 300)}[kind]
+    X0 = X.copy()
     for name, m, lo, hi in (
             ('UniformUnivariate', U.UniformUnivariate(), None, None), ('BetaUnivariate', U.BetaUnivariate(), None, None),
             ('TruncatedGaussian', U.TruncatedGaussian(), None, None),
             ('TruncatedGaussian(bounds)', U.TruncatedGaussian(minimum=float(X.min()) - 2.5, maximum=float(X.max()) + 0.5), float(X.min()) - 2.5, float(X.max()) + 0.5),
             ('TruncatedGaussian(minimum)', U.TruncatedGaussian(minimum=float(X.min()) - 2.5), float(X.min()) - 2.5, None),
-            ('TruncatedGaussian(maximum)', U.TruncatedGaussian(maximum=float(X.max()) + 1.5), None, float(X.max()) + 1.5)):
+            ('TruncatedGaussian(maximum)', U.TruncatedGaussian(maximum=float(X.max()) + 1.5), None, float(X.max()) + 1.5),
+            # a bound that is exactly 0 is a bound (the data are moved to one side of it)
+            ('TruncatedGaussian(minimum=0)', U.TruncatedGaussian(minimum=0), 0.0, None),
+            ('TruncatedGaussian(maximum=0.0)', U.TruncatedGaussian(maximum=0.0), None, 0.0),
+            ('TruncatedGaussian(0, hi)', U.TruncatedGaussian(0.0, float(X.max() - X.min()) + 2.0), 0.0, float(X.max() - X.min()) + 2.0)):
+        X = X0.copy()
+        if '0' in name.split('(')[-1]:
+            X = (X0 - X0.min() + 0.3) if 'minimum=0' in name or '(0,' in name else (X0 - X0.max() - 0.3)
         try:
             m.fit(X.copy())
         except Exception:
